@@ -19,7 +19,7 @@ RULE = (
     "and evaluating fitness(dv) must make the probe receive exactly the slice of each variable. Part 'run': real calibration "
     "runs (sade / sga / nlopt, 1..2 islands, seeds): every logged evaluation and every reported champion / best decision must "
     "lie inside the declared box, parameters == convert(decision), and the champion parameters must occur in the "
-    "evaluation log. Non-trivial: a vector variable precedes a scalar one, or linear and logarithmic are mixed; distinct by JSON."
+    "evaluation log; half of the cases run the same objects a second time under the same oracles. Non-trivial: a vector variable precedes a scalar one, or linear and logarithmic are mixed; distinct by JSON."
 )
 ASSUMPTIONS = ["relative tolerance 1e-12 for the 10**log10 round trip at the box border", "the synchronous dask scheduler is used here (schedulers: C07)"]
 SHARDS = {"quick": 8, "thorough": 16}
@@ -67,7 +67,7 @@ def run_cases(draw):
     vs = draw(variables(max_vars=3))
     return {"variables": vs, "shape": [3, 3], "algo": draw(st.sampled_from(["sade", "sade", "sga", "nlopt"])),
             "islands": draw(st.integers(1, 2)), "evolutions": draw(st.integers(1, 2)), "pygmo_seed": draw(st.integers(0, 100000)),
-            "best": draw(st.sampled_from([None, 2, 3])), "topology": draw(st.sampled_from(["unconnected", "ring", "fully_connected"]))}
+            "best": draw(st.sampled_from([None, 2, 3])), "again": draw(st.booleans()), "topology": draw(st.sampled_from(["unconnected", "ring", "fully_connected"]))}
 
 
 def _nontrivial(vs):
@@ -170,24 +170,39 @@ def body_run(case, rec):
     extra = {"pygmo_seed": case["pygmo_seed"], "num_islands": case["islands"], "num_evolutions": case["evolutions"], "topology": case["topology"]}
     if case["best"]:
         extra["num_best_decisions"] = case["best"]
-    res, cfg = None, None
+    cfg = None
     with rec.must_not_raise("valid_calibration_refused"):
         cfg = pyx.build(_spec(case, rec.tmp, algo=algo, **extra))
+    if cfg is None:
+        return
+    for nrun in range(2 if case.get("again") else 1):  # the same Calibration / detector / pipeline objects run again
+        P.reset()
+        if nrun:
+            rec.cls("second_run_of_the_same_objects")
+        if not _one_run(case, rec, cfg, vs, f"run #{nrun + 1}: " if nrun else ""):
+            return
+
+
+def _one_run(case, rec, cfg, vs, where):
+    from vprobes import models as P
+
+    res = None
+    with rec.must_not_raise("valid_calibration_refused"):
         before = snapshot.snap_all(cfg)
         res = pyx.run(cfg, with_inherited_coords=True)
         d = snapshot.diff(before, snapshot.snap_all(cfg))
-        rec.check(not d, "callers_objects_modified_by_calibration", f"{d[:4]}")
+        rec.check(not d, "callers_objects_modified_by_calibration", f"{where}{d[:4]}")
     if res is None:
-        return
+        return False
     log = list(P.CAL_LOG)
     rec.check(len(log) > 0, "no_evaluation_logged", "")
     for i, e in enumerate(log):
         received = dict(e["values"])
         if e["qe"] is not None and any(v["arg"] == "qe" for v in vs):
             received["qe"] = float(e["qe"])
-        _check_in_declared_bounds(case, received, rec, f"evaluation #{i}")
+        _check_in_declared_bounds(case, received, rec, f"{where}evaluation #{i}")
         if len(rec.failures) > 5:
-            return
+            return False
     ref_lo, ref_hi = pyx_cal.reference_bounds(vs)
     for grp in ("champion", "best"):
         if grp not in res.children:
@@ -216,7 +231,24 @@ def body_run(case, rec):
         for ev in range(champ.shape[1]):
             c = champ[isl, ev]
             hit = bool(np.any(np.all(np.isclose(applied, c, rtol=1e-12, atol=0), axis=1)))
-            rec.check(hit, "champion_parameters_never_applied", f"island {isl} evolution {ev}: {c.tolist()} not among the {len(applied)} evaluated candidates")
+            rec.check(hit, "champion_parameters_never_applied", f"{where}island {isl} evolution {ev}: {c.tolist()} not among the {len(applied)} evaluated candidates")
+    # the simulated data returned for the last champions is the pipeline's output for exactly the reported parameters
+    from vprobes.models import cal_frame
+
+    got = None
+    with rec.must_not_raise("champion_simulated_data_not_computable"):
+        got = np.asarray(res["/simulated/pixel"].compute().values, dtype=float)
+    if got is None:
+        return False
+    rows, cols = case["shape"]
+    for isl in range(champ.shape[0]):
+        values = pyx_cal.reference_split(vs, champ[isl, -1])
+        qe = values.pop("qe", getattr(cfg.detector.characteristics, "_quantum_efficiency", None))
+        want = cal_frame((rows, cols), values, step=0, offset=1000.0 * float(qe) if qe is not None else 0.0)
+        g = got[isl].reshape(-1, rows, cols)[0]
+        rec.check(bool(np.allclose(g, want, rtol=1e-12, atol=1e-9)), "champion_simulated_data_not_from_reported_parameters",
+                  f"{where}island {isl}: returned {g.ravel()[:3]}, the reported parameters {champ[isl, -1].tolist()} give {want.ravel()[:3]}")
+    return True
 
 
 PARTS = {"problem": body_problem, "run": body_run}
